@@ -272,7 +272,9 @@ PROPS["C04"] = {
     "assumptions": COMMON_ASSUME + ['std::fmt::format stubbed (messages not compared)', 'core::str::from_utf8 replaced by a byte-wise model checked against std (c19_utf8_model_vs_std)', 'forward_to_next_storage_header replaced by its specification (first occurrence) in whole-message storage-mode harnesses; the real function is checked against that specification in C06', 'ids, names, units and string contents are literals in whole-message harnesses (whether a byte is NUL is control for the parser); arbitrary contents are decided in C19 / c02d', 'RandomState::new replaced by fixed keys (empty HashSet construction)'],
     "trusted_base": ['reference verdict computed by gen_catalogue.py from the layout'],
     "harnesses": [H("c04::c04_skipper_storage_shapes", "quick", 900), H("c04::c04_validated_payload_length_all", "quick", 300),
-                  H("c06::c06_junk_3_filtered_out", "quick", 900, what="junk in front of the storage header + a filter that drops the message: remainder still at the declared end")]
+                  H("c06::c06_junk_3_filtered_out", "quick", 900, what="junk in front of the storage header + a filter that drops the message: remainder still at the declared end"),
+                  H("c19::c19_ids_extended_header", "quick", 600, what="header parsers consume exactly their field sizes for ANY id bytes (the message end is computed from where the header parsers stop)"),
+                  H("c19::c19_ids_standard_header_ecu", "quick", 600, what="same, ECU id of the standard header")]
                  + [H(e["name"], e["tier"], 900) for e in _cat["c04"]],
 }
 PROPS["C05"] = {
